@@ -5,7 +5,7 @@ import Driver.Codec
   the closure it returns, exception-passing style, harness/pytolean_closure.py, plugin extractors/src_translation_compile.py): one JSON
   line in — `{"fn": "compile_decide", "args": [policy, env], "oracle": {…}, "ext": {"getattr": …, "_parse_dt": …, "rel_branch": …}}`
   (the tables of the externals of the translated `eval_condition`, exactly as for `Run/SrcEvalEvaluators.lean`) — one JSON line out:
-  `{"ok": value}` | `{"err": "mismatch"}` | `{"err": "raised:Cls"}`, computed with the budget `size(policy) + 2`, the bound the
+  `{"ok": value}` | `{"err": "mismatch"}` | `{"err": "raised:Cls"}`, computed with the budget `size(policy) + 3`, the bound the
   obligation `C03_whole` proves sufficient.
   The harness (`translated_whole_vs_python` in harness/props/c03.py) compares with the REAL `compile(policy)(env)`: the returned dict
   (key order included) or WHICH exception.  This validates the closure / identity / in-place-operation reading of
@@ -43,7 +43,7 @@ def evalFn (o : Oracle) (ga pd rb : List PyVal → Except CondErr PyVal) (fn : S
   let parse_dt := fun x s => pd [x, s]
   let rel_branch := fun c e => rb [c, e]
   match fn, args with
-  | "compile_decide", [p, env] => .ok (Src.compile_decide o getattr parse_dt rel_branch p env (p.size + 2))
+  | "compile_decide", [p, env] => .ok (Src.compile_decide o getattr parse_dt rel_branch p env (p.size + 3))
   | _, _ => .error s!"unknown function or arity: {fn}/{args.length}"
 
 partial def loop (hin hout : IO.FS.Stream) : IO Unit := do
